@@ -418,6 +418,30 @@ def unbounded_adaptive_tau(tr, sim):
     return bool(cands) and min(cands) > 1e15
 
 
+def coded_adaptive_tau(rates, mu, s2, eps):
+    """the step size of `_get_adaptive_tau_step` recomputed in float64 by the coded formula from recorded statistics
+    (min over the non-zero entries of eps*sum(rates)/|mu| and (eps*sum(rates))**2/sigma2); None when it cannot be formed"""
+    rates = np.asarray(rates, float).ravel(); mu = np.asarray(mu, float).ravel(); s2 = np.asarray(s2, float).ravel()
+    mu = mu[mu != 0]; s2 = s2[s2 != 0]
+    if mu.size == 0 and s2.size == 0:
+        return 1.0
+    bound = float(eps if eps is not None else 0.03) * float(np.sum(rates))
+    with np.errstate(all="ignore"):
+        cands = ([float(np.min(bound / np.abs(mu)))] if mu.size else []) + ([float(np.min((bound ** 2) / s2))] if s2.size else [])
+    return min(cands) if cands else None
+
+
+def tau_underflowed(it, eps):
+    """True for a tau-leap iteration of an adaptive run whose coded step size is exactly 0.0 in float64 although every quantity it
+    is formed from is positive: (eps*sum(rates))**2 (or the quotient) underflowed.  In exact arithmetic the step is positive."""
+    if it.get("retry") or "mu" not in it or "sigma2" not in it:
+        return False
+    rates = np.asarray(it["rates"], float).ravel()
+    if not (np.all(rates >= 0) and float(np.sum(rates)) > 0):
+        return False
+    return coded_adaptive_tau(rates, it["mu"], it["sigma2"], eps) == 0.0
+
+
 def narrow_int_overflow(tr, x0, t0):
     """True when an evaluator, called at the initial state during the run, returned something else than it returns for the same
     state as float64: the state vector was handed over in a narrow integer dtype (int32) and a product overflowed.  Used only to
@@ -635,7 +659,15 @@ def tie_steps(model, case, jr, its, lims_json, mism, tags, max_report=3):
             if not close(Fraction(r["t"]), T[k + 1]):
                 mm("step:time", "%s: model t=%r code t=%r" % (where, float(Fraction(r["t"])), T[k + 1]))
             if not close(Fraction(r["dt"]), dT[k]):
-                mm("step:dt", "%s: model dt=%r code dt=%r" % (where, float(Fraction(r["dt"])), dT[k]))
+                if (not exact and pre_tau is None and not it["retry"]
+                        and (float(eps) * float(np.sum(np.abs(rates)))) ** 2 < 1e-300):
+                    # the coded formula squares eps*sum(rates): below ~1e-300 that intermediate is a denormal (a few significant
+                    # bits) or underflows to 0.0, while the exact-rational model keeps a positive step (e.g. 5e-164) - the regime
+                    # of the known findings C04-tau-below-ulp / C04-tau-underflows-to-zero; a float artefact, not a disagreement
+                    # of algorithms
+                    tags.append("tau_denormal_tie_skipped")
+                else:
+                    mm("step:dt", "%s: model dt=%r code dt=%r" % (where, float(Fraction(r["dt"])), dT[k]))
             if [int(c) for c in r["counts"]] != [int(c) for c in np.asarray(J[k]).ravel()]:
                 mm("step:counts", "%s: model %s code %s" % (where, r["counts"], np.asarray(J[k]).ravel().tolist()))
             obs_branch = "exact" if exact else ("retry" if it["retry"] else "tau")
@@ -732,8 +764,11 @@ def run_sibling(op, default_case):
 def run_session(case, judge, prop, tags, mism, viol, max_steps=MAX_STEPS):
     """run the ops of `case["session"]` (default: one call described by case["sim"]) on one instance.
     `judge(call, model) -> bool` is the property's own tie + direct oracle for one call (False ends the session).
-    Direct oracles of this function (no Lean): caller's arrays unchanged, model.initial_state/time unchanged, returned
-    arrays unchanged by later operations, a repeated call reproduces the earlier one, a fresh instance reproduces a call."""
+    Direct oracle of this function (no Lean): an array returned by an earlier call is unchanged by later operations (VIOLATION:
+    a result the caller holds turned wrong).  Probes of what the pure Lean model excludes but the properties do not state
+    (tag + broken correspondence `pure-model:...`, never a violation): the caller's objects and model.initial_state/time are
+    unchanged, a repeated call reproduces the earlier one, a fresh instance reproduces a call.  Wrong VALUES that follow from
+    such a side effect are reported by the property's own oracle in `judge` (which compares with the harness's own copies)."""
     import copy
     sim0 = case["sim"]
     ops = case.get("session") or default_session(case)
@@ -750,23 +785,34 @@ def run_session(case, judge, prop, tags, mism, viol, max_steps=MAX_STEPS):
     def v(what, kind, detail, call=None):
         viol.append({"what": what, "signature": "%s:%s%s" % (prop, kind, (":" + sigmode(call)) if call is not None else ""), "detail": detail})
 
+    reported = set()
+
+    def side(what, kind, detail, call=None):
+        """something the PURE Lean model excludes (a path is a function of configuration, x0, t0, draws; nothing is written to)
+        but the property does not state: a tag and a broken correspondence, never a violation.  If wrong VALUES follow (a later
+        path starting elsewhere, a kept array overwritten) the property's own oracle reports those."""
+        tags.append("side_effect:" + kind)
+        if kind not in reported:
+            reported.add(kind)
+            mism.append({"what": "pure-model:" + kind, "detail": what + ": " + detail})
+
     def check_handed(when, call=None):
         ok = True
-        for label, obj, snap in handed:
+        for h in list(handed):
+            label, obj, snap = h
             if not _same_obj(obj, snap):
-                v("an object the caller passed in was written to", "caller-argument-modified",
-                  "%s: %s now reads %s, was %s" % (when, label, np.asarray(obj).tolist(), np.asarray(snap).tolist()), call)
-                ok = False
+                side("an object the caller passed in was written to", "caller-argument-modified",
+                     "%s: %s now reads %s, was %s" % (when, label, np.asarray(obj).tolist(), np.asarray(snap).tolist()), call)
+                handed.remove(h)
         try:
             mx = np.asarray(model.initial_state, float).ravel()
             mt = float(model.initial_time)
         except Exception as exc:
             mx, mt = None, None
         if mx is None or not (np.array_equal(mx, np.array(cur["x0"], float)) and mt == cur["t0"]):
-            v("the initial state / time held by the model is no longer the one that was assigned", "initial-values-modified",
-              "%s: model.initial_state=%s initial_time=%r, assigned %s at t0=%r (form %s)"
-              % (when, None if mx is None else mx.tolist(), mt, cur["x0"], cur["t0"], cur["x0_form"]), call)
-            ok = False
+            side("the initial state / time held by the model is no longer the one that was assigned", "initial-values-modified",
+                 "%s: model.initial_state=%s initial_time=%r, assigned %s at t0=%r (form %s)"
+                 % (when, None if mx is None else mx.tolist(), mt, cur["x0"], cur["t0"], cur["x0_form"]), call)
         return ok
 
     for i, op in enumerate(ops):
@@ -838,8 +884,8 @@ def run_session(case, judge, prop, tags, mism, viol, max_steps=MAX_STEPS):
                     same, why = _same_result(first[0].tr.result, c.tr.result)
                     tags.append("probe:repeat")
                     if not same:
-                        v("a call repeated with the first call's configuration, initial values, horizon and seed does not reproduce it",
-                          "history-dependent-path:repeat", "op %d vs op %d: %s" % (first[0].index, i, why), c)
+                        side("a call repeated with the first call's configuration, initial values, horizon and seed does not reproduce it",
+                             "history-dependent-path:repeat", "op %d vs op %d: %s" % (first[0].index, i, why), c)
             if op.get("fresh_ref") and c.tr.result is not None:
                 fc = dict(case, x0=c.x0, sim=dict(c.sim), params=dict(cur["params"]))
                 fm = build_model(fc)
@@ -849,8 +895,8 @@ def run_session(case, judge, prop, tags, mism, viol, max_steps=MAX_STEPS):
                 if ftr.result is not None:
                     same, why = _same_result(ftr.result, c.tr.result)
                     if not same:
-                        v("a freshly built model with the same configuration, initial values, horizon and seed returns another path",
-                          "history-dependent-path:fresh", "op %d (%s): %s" % (i, mode, why), c)
+                        side("a freshly built model with the same configuration, initial values, horizon and seed returns another path",
+                             "history-dependent-path:fresh", "op %d (%s): %s" % (i, mode, why), c)
         else:
             raise ValueError("unknown session op %r" % kind)
     # every returned object, again, after everything that followed
@@ -981,15 +1027,30 @@ def oracle_c04(model, case, X, J, T, exact, finalT, truncated, its, lims, evalua
         def below_ulp(k):
             return (adaptive and dT is not None and k < len(dT) and float(dT[k]) > 0.0 and T[k + 1] == T[k]
                     and float(T[k]) + float(dT[k]) == float(T[k]) and not (k < len(its) and its[k].get("retry")))
-        other = [k for k in bad if not below_ulp(k)]
+        # recorded defect `C04-tau-underflows-to-zero` (the same collapse taken further): the reported step size is exactly 0.0
+        # because (eps*sum(rates))**2 underflowed in float64 while every recorded statistic is positive; state and time then
+        # never change again.  Recomputed here from the recorded statistics by the coded formula.
+        eps_now = case["sim"].get("epsilon")
+        def underflow_zero(k):
+            return (adaptive and dT is not None and k < len(dT) and float(dT[k]) == 0.0 and T[k + 1] == T[k]
+                    and k < len(its) and its[k].get("complete") and tau_underflowed(its[k], eps_now))
+        ulp_steps = [k for k in bad if below_ulp(k)]
+        zero_steps = [k for k in bad if not below_ulp(k) and underflow_zero(k)]
+        other = [k for k in bad if k not in ulp_steps and k not in zero_steps]
         if other:
             k = other[0]
             v("times are not strictly increasing", "times", "T[%d]=%r T[%d]=%r%s" % (k, T[k], k + 1, T[k + 1], "" if dT is None or k >= len(dT) else " reported dt=%r" % float(dT[k])))
         else:
-            k = bad[0]
-            viol.append({"what": "times are not strictly increasing: an adaptive tau-leap step with a positive step size below half an ulp of t (t + dt == t)",
-                         "signature": "C04:times:tau_adaptive:dt-positive-below-ulp",
-                         "detail": "%d such steps, first: T[%d]=%r dt=%r x=%s" % (len(bad), k, T[k], float(dT[k]), X[k].tolist()) + ((" [" + where + "]") if where else "")})
+            if ulp_steps:
+                k = ulp_steps[0]
+                viol.append({"what": "times are not strictly increasing: an adaptive tau-leap step with a positive step size below half an ulp of t (t + dt == t)",
+                             "signature": "C04:times:tau_adaptive:dt-positive-below-ulp",
+                             "detail": "%d such steps, first: T[%d]=%r dt=%r x=%s" % (len(ulp_steps), k, T[k], float(dT[k]), X[k].tolist()) + ((" [" + where + "]") if where else "")})
+            if zero_steps:
+                k = zero_steps[0]
+                viol.append({"what": "times are not strictly increasing: the adaptive tau-leap step size underflowed to exactly 0.0 (state and time no longer change)",
+                             "signature": "C04:times:tau_adaptive:dt-underflows-to-zero",
+                             "detail": "%d such steps, first: T[%d]=%r dt=0.0 x=%s rates=%s" % (len(zero_steps), k, T[k], X[k].tolist(), np.ravel(its[k]["rates"]).tolist()) + ((" [" + where + "]") if where else "")})
     if len(J):
         Jf = np.asarray(J, float)
         if Jf.ndim != 2 or not np.all(np.mod(Jf, 1) == 0) or not np.all(Jf >= 0):
